@@ -821,7 +821,9 @@ macro_rules! gen_impl {
                 let ptmeta = |rng: &mut Rng, budget: i128| -> (i128, i128) {
                     let l = if wild { rng.range(0, 60) as i128 } else { rng.range(4, 44) as i128 };
                     let bmax = if wild { 60 } else { budget.clamp(0, 24) };
-                    (l, rng.below(1 + bmax as u64) as i128)
+                    let lbp = rng.below(1 + bmax as u64) as i128;
+                    // a precision of (0, 0) has no limb at all (to_znx panics on it): not an admissible plaintext
+                    (l, if l + lbp == 0 { 1 } else { lbp })
                 };
                 let seed = rng.next() as u32 as i128;
                 let parts = if rng.below(8) == 0 { 0 } else { 1 + rng.below(3) as i128 };
